@@ -276,7 +276,13 @@ def run(E: Engine, rep: Report, tier: str) -> dict:
     for n in ast.walk(cs.node):
         if isinstance(n, ast.Call) and (dotted(n.func) or "").endswith("lexsort"):
             a = abc_.av(n.args[0])
-            rep.check(any("_rounded_coords" in r for r in a.roots), "TABLE", "CoordsCollection._calc_sorting_order|sorts-rounded-coords", "sorting is computed on the rounded coordinates", f"sorting is computed on {a.show()[:120]} instead of the rounded coordinates", E.where(cs, n))
+            by_av = any("_rounded_coords" in r for r in a.roots)
+            if not by_av:
+                # the key list may be filled by a loop of appends: the normal form keeps what was appended
+                from .symutil import mentions as _ment19
+
+                by_av = any(_ment19(l_.value, "_rounded_coords") for l_ in _S0(E, cs).calls("lexsort")) or any(l_.kind == "call" and l_.target is not None and l_.target[0] == "attr" and l_.target[2] == "append" and _ment19(l_.value, "_rounded_coords") for l_ in _S0(E, cs).log)
+            rep.check(by_av, "TABLE", "CoordsCollection._calc_sorting_order|sorts-rounded-coords", "sorting is computed on the rounded coordinates", f"sorting is computed on {a.show()[:120]} instead of the rounded coordinates", E.where(cs, n))
     n_round = 0
     for f in P.all_functions():
         if not f.module.name.startswith("pulser.register.") or f.module.name.endswith(("_reg_drawer", "_patterns", "_layout_gen")):
@@ -306,7 +312,15 @@ def run(E: Engine, rep: Report, tier: str) -> dict:
     # rounded coordinates are normalised (`+ 0.0`) so that equal coordinates have one byte representation
     rc_f = P.lookup_method(P.cls("pulser.register._coordinates.CoordsCollection"), "_rounded_coords")[0]
     # (the normal form simplifies `x + 0.0` to `x`: this one is read off the syntax tree)
-    norm0 = any(isinstance(n_, ast.BinOp) and isinstance(n_.op, ast.Add) and any(isinstance(o_, ast.Constant) and o_.value == 0 for o_ in (n_.left, n_.right)) for n_ in ast.walk(rc_f.node))
+    def _is_zero(o_):
+        if isinstance(o_, ast.Constant):
+            return isinstance(o_.value, (int, float)) and not isinstance(o_.value, bool) and o_.value == 0
+        if isinstance(o_, ast.Name):  # a module-level constant
+            v_ = rc_f.module.assigns.get(o_.id)
+            return isinstance(v_, ast.Constant) and isinstance(v_.value, (int, float)) and not isinstance(v_.value, bool) and v_.value == 0
+        return False
+
+    norm0 = any(isinstance(n_, ast.BinOp) and isinstance(n_.op, ast.Add) and (_is_zero(n_.left) or _is_zero(n_.right)) for n_ in ast.walk(rc_f.node))
     norm0 = norm0 or any(isinstance(n_, ast.Call) and (dotted(n_.func) or "").split(".")[-1] in ("where", "copysign") for n_ in ast.walk(rc_f.node))
     rep.check(norm0, "TABLE", "CoordsCollection._rounded_coords|negative-zero-normalised", "round(...) + 0.0", "the rounded coordinates keep IEEE negative zeros (given directly, or produced by rounding a value in (-5e-7, 0)): -0.0 == 0.0 but the bytes differ, so two layouts / detuning maps with the same trap set compare unequal and hash differently", E.where(rc_f))
     # the traps own their coordinates: Traps.__init__ stores a fresh float array, not the caller's object (read lazily,
